@@ -36,10 +36,12 @@ CHECKS["C02"] = dict(
         "folding) equals an independent architectural specification ('output address || low VA bits', per-format entry decoders) for x86-64 4/5-level, "
         "IA-32 with and without PAE (PSE-36), RISC-V Sv39/48/57 and PFN32/64 tables with arbitrary field lists, for every memory, root, PTE mask and "
         "address, including non-canonical addresses and error classes; linear/lookup/memory-array methods equal their definitions; launch+single steps "
-        "equals the one-call walk for every method. Tie: differential run of the real addrxlat_walk/launch/step over a pseudo-random pure-function "
+        "equals the one-call walk for every method; AArch64 (4K/16K/64K, LPA, LPA2: 212 forms), Arm short descriptors, s390x and Linux ppc64 64K each "
+        "have their own model, specification and proved walk_eq_spec theorem. Tie: differential run of the real addrxlat_walk/launch/step over a pseudo-random pure-function "
         "memory with single-bit flips of every PTE read at every level, both byte orders; the implementation is also compared with the specification directly.",
-   note=TB + "Architecture specifications are my reading of the manuals (reserved bits ignored as the library does). AArch64, Arm, s390x and ppc64 handlers: "
-        "being modelled (separate files), until then covered by the repository's own tests only. Custom methods are outside the model.",
+   note=TB + "Architecture specifications are my reading of the manuals (reserved bits ignored as the library does). Recorded findings: the AArch64 and Arm methods do not "
+        "range-check the input address (KNOWN_FINDINGS); ppc64 _PAGE_PRESENT/hugepd encodings and the s390x PTE bit 52 follow the library (counted, not "
+        "claimed as defects). Custom methods are outside the model.",
    technique="Lean 4 proof (walk = architectural spec, per format) + differential correspondence", design="§6 C02")
 CHECKS["C06"] = dict(
    text="Lean proof over an arc-level model of cache.c (unused / ghost-probed / probed / precious / ghost-precious arcs + in-flight list; split and the "
@@ -63,6 +65,18 @@ CHECKS["C07"] = dict(
         "frame; the static scan/region functions are additionally run directly at all four buffer alignments in both bit orders.",
    note=TB + "SADUMP (MSB0) is covered through the internal-function stream only; qsort of the file maps is trusted to sort.",
    technique="Lean 4 proof (specification of every query over all bitmaps/segment lists) + differential correspondence", design="§6 C07")
+CHECKS["C16"] = dict(
+   text="Lean proof over a byte-exact model of err_vadd (inline buffer, heap block with reserved mark byte, local truncation buffer; every access "
+        "bounds-checked in the model): with a working allocator the string is always the chain msg ++ ': ' ++ old, newest first; when the message fits no "
+        "allocation is attempted; when realloc fails the string degrades to a '<'-marked truncation that keeps the oldest text as a suffix; the object "
+        "stays well-formed (NUL-terminated, no access outside its arrays) over every history of prepends, clears and allocation outcomes; the status "
+        "conversions round-trip on the documented enumeration (codes regenerated from the headers) and the probe loop never returns the no-probe marker. "
+        "Tie: the real err_add/err_clear (header-only) run on an exactly-sized object under ASan for every message length 0..2*bufsz+3 at the three real "
+        "inline sizes with realloc succeeding and failing, byte-for-byte comparison with the model; the chain/truncation property is evaluated on the "
+        "implementation's strings. Every public call made by this and the other API streams goes through a monitor (documented status, message iff failure).",
+   note=TB + "Partial: that each of the ~150 error exits of the library sets a message and that no stale message survives a successful call is observed "
+        "by the monitors on the exercised calls (good and truncated dumps, failing reads/attribute calls), not proved.",
+   technique="Lean 4 proof (buffer invariant over all histories) + differential correspondence + API monitors", design="§6 C16")
 NOT_YET = {}
 
 def main():
